@@ -17,12 +17,14 @@ def section(txt, pat):
 bullets = []
 R2 = os.path.join(ROOT, "reports", "ext5b")   # short second wave of the same session
 files = [(R, x) for x in sorted(os.listdir(R)) if x.endswith(".md")]
-if os.path.isdir(R2):
-    files += [(R2, x) for x in sorted(os.listdir(R2)) if x.endswith(".md")]
+R3 = os.path.join(ROOT, "reports", "ext5c")   # third, shortest wave
+for rr in (R2, R3):
+    if os.path.isdir(rr):
+        files += [(rr, x) for x in sorted(os.listdir(rr)) if x.endswith(".md")]
 for d_, f in files:
     pid = f[:3]
     txt = open(os.path.join(d_, f)).read()
-    wave = " Second wave (5b)." if d_ == R2 else ""
+    wave = " Second wave (5b)." if d_ == R2 else " Third wave (5c)." if d_ == R3 else ""
     d = section(txt, r"DESIGN")
     c = section(txt, r"claim")
     if d:
